@@ -41,7 +41,9 @@ fn stress_lexicon(rng: &mut Rng, lex: &mut Lexicon, nid: i64, size_class: u64) {
     // homographs
     if rng.chance(1, 2) {
         let k = textgen::random_key(rng, 3);
-        let h = *rng.pick(&[2usize, 3, 10, 126, 127]);
+        // 127 entries per key is the format limit: more must be rejected by the compiler (the world is then
+        // counted as rejected), never compiled into a table that returns only part of them
+        let h = *rng.pick(&[2usize, 3, 10, 126, 127, 127, 128, 255, 256, 257, 300]);
         for _ in 0..h {
             add(rng, lex, &k);
         }
@@ -68,12 +70,14 @@ fn stress_lexicon(rng: &mut Rng, lex: &mut Lexicon, nid: i64, size_class: u64) {
         0 => 0,
         1 => 100 + rng.below(400),
         2 => 1000 + rng.below(3000),
-        _ => 20000 + rng.below(50000),
+        3 => 20000 + rng.below(50000),
+        // a double array of more than 2^20 units: the high bits of node offsets are in use
+        _ => 330000,
     };
     for _ in 0..bulk {
-        let k = if rng.chance(1, 3) {
+        let k = if size_class >= 4 || rng.chance(1, 3) {
             // random bytes-ish keys over a wide alphabet
-            let n = 1 + rng.below(3);
+            let n = if size_class >= 4 { 2 + rng.below(3) } else { 1 + rng.below(3) };
             (0..n).map(|_| char::from_u32(0x3041 + rng.below(0x1000) as u32).unwrap_or('x')).collect::<String>()
         } else {
             textgen::random_key(rng, 4)
@@ -103,6 +107,7 @@ pub fn run(ctx: &Ctx, rep: &mut Report) {
         // size classes: most worlds small, some with hundreds / thousands of keys, a few huge ones (thorough)
         let size_class = match wi % 40 {
             _ if small => (wi % 2) as u64,
+            5 if ctx.stage == "main" && (wi == 5 || (!ctx.quick() && wi % 1600 == 5)) => 4,
             0 if !ctx.quick() => 3,
             1 | 2 => 2,
             x if x % 4 == 3 => 1,
@@ -204,6 +209,33 @@ pub fn run(ctx: &Ctx, rep: &mut Report) {
                 }
             }
         }
+        if size_class == 4 {
+            // every key of the huge dictionary, looked up at offset 0 of itself
+            let units = trie_units(&world.sys_bytes);
+            rep.max("max_trie_units", units);
+            for (key, rows) in model.iter() {
+                rep.eval();
+                let got = guard(|| {
+                    let mut v: Vec<(u8, u32, usize)> = lex.lookup(key, 0).filter(|e| e.end == key.len()).map(|e| (e.word_id.dic(), e.word_id.word(), e.end)).collect();
+                    v.sort();
+                    v
+                });
+                let mut exp: Vec<(u8, u32, usize)> = rows.iter().map(|(d, r)| (*d, *r, key.len())).collect();
+                exp.sort();
+                match got {
+                    Ok(g) if g == exp => rep.count("huge_dictionary_keys_checked", 1),
+                    Ok(g) => {
+                        rep.violation("lookup_mismatch", "LexiconSet::lookup", &format!("dictionary with {} trie units: key {:?} expected {:?}, got {:?}", units, String::from_utf8_lossy(key), exp, g), "",
+                            json!({"world_index": wi, "key": String::from_utf8_lossy(key), "world": world.describe(false)}));
+                        break;
+                    }
+                    Err(p) => {
+                        rep.violation("lookup_panic", &p.site, &p.msg, "", json!({"world_index": wi, "key": String::from_utf8_lossy(key), "world": world.describe(false)}));
+                        break;
+                    }
+                }
+            }
+        }
         let oob_after = sudachi::verif::counters();
         rep.count("trie_accesses_seen_by_hook", oob_after[2] - oob_before[2]);
         rep.count("word_id_table_accesses_seen_by_hook", oob_after[4] - oob_before[4]);
@@ -214,5 +246,23 @@ pub fn run(ctx: &Ctx, rep: &mut Report) {
         if rep.want_sample() && world.users.len() >= 2 {
             rep.sample(json!({"layers": 1 + world.users.len(), "indexed_keys": model.len(), "example_keys": keys.iter().take(8).collect::<Vec<_>>()}));
         }
+    }
+}
+
+/// number of units of the system dictionary's double array, read from the binary image
+fn trie_units(sys: &[u8]) -> u64 {
+    use sudachi::dic::grammar::Grammar;
+    use sudachi::dic::header::Header;
+    let off = Header::STORAGE_SIZE;
+    match Grammar::parse(sys, off) {
+        Ok(g) => {
+            let lex = off + g.storage_size;
+            if lex + 4 <= sys.len() {
+                u32::from_le_bytes([sys[lex], sys[lex + 1], sys[lex + 2], sys[lex + 3]]) as u64
+            } else {
+                0
+            }
+        }
+        Err(_) => 0,
     }
 }
